@@ -339,10 +339,14 @@ template <typename TG_, typename TA_>
 HFSM2_CONSTEXPR(14)
 bool
 R_<TG_, TA_>::replayTransitions(const Transition* const transitions,
-								const Short count) noexcept
+								const Short count_) noexcept
 {
 	HFSM2_ASSERT(transitions);
 	HFSM2_ASSERT(_core.registry.isActive());
+
+	// a recorded history never exceeds what previousTransitions() can hold: excess entries are rejected
+	const Short count = count_ < TransitionSets::CAPACITY ?
+		count_ : static_cast<Short>(TransitionSets::CAPACITY);
 
 	_core.transitionTargets  .clear();
 	_core.previousTransitions.clear();
